@@ -44,10 +44,14 @@ def grammar(run, fam, family='syntax', profiles=('debug',), parts=None):
     tlc_replay(run, 'grammar-' + fam, 'MC_Grammar.tla', 'MC_Grammar_%s_%s.cfg' % (fam, run.tier), family, profiles=profiles, xss='256m', env=env)
 
 
-def deep(run, family='e2e', profiles=('debug',)):
+def deep(run, family='e2e', profiles=('debug',), parts=None):
     """depth and length boundaries (MC_Deep.tla): d-fold nested operators / subscripts / calls / blocks / definitions, call chains d deep
     at run time, n statements / blocks / list operands / arguments / poetic words / characters"""
-    tlc_replay(run, 'deep', 'MC_Deep.tla', 'MC_Deep_%s.cfg' % run.tier, family, profiles=profiles, xss='512m', workers=6, timeout_ms=60000)
+    env = None
+    if parts:
+        env = dict(getattr(run, 'replay_env', None) or {})
+        env['VH_E2E_PARTS'] = parts
+    tlc_replay(run, 'deep', 'MC_Deep.tla', 'MC_Deep_%s.cfg' % run.tier, family, profiles=profiles, xss='512m', workers=6, timeout_ms=60000, env=env)
 
 
 def parser_soup(run, cfgs, profiles=('debug',), family='verdict', env=None):
@@ -341,6 +345,9 @@ def C04(run):
     interp(run, 'CF')
     # which statements belong to which branch / loop is decided by the parser: block-structure programs as TEXT through the real front end
     grammar(run, 'cf', family='e2e', parts='run')
+    # "from any depth of nested ifs": the depth boundary family (40 / 150 nested ifs, else-if chains, loops, definitions) with the full
+    # comparison of the run: a deeply nested program is a program like any other
+    deep(run, parts='run')
     # "an error stops execution at that statement": also an output or input fault (family IO, faults of every kind at every position)
     interp(run, 'IO')
     interptrace(run)
